@@ -839,6 +839,8 @@ class AttrSpec:
         """
         if not (self.foreground_basic or self.foreground_high or self.foreground_true):
             vals = (None, None, None)
+        elif self.foreground_basic:
+            vals = _BASIC_COLOR_VALUES[self.foreground_number]
         elif self.colors == 88:
             if self.foreground_number >= 88:
                 raise ValueError(f"Invalid AttrSpec _value: {self.foreground_number!r}")
@@ -851,6 +853,8 @@ class AttrSpec:
 
         if not (self.background_basic or self.background_high or self.background_true):
             return (*vals, None, None, None)
+        if self.background_basic:
+            return vals + _BASIC_COLOR_VALUES[self.background_number]
         if self.colors == 88:
             if self.background_number >= 88:
                 raise ValueError(f"Invalid AttrSpec _value: {self.background_number!r}")
